@@ -316,6 +316,16 @@ def gen_xrange(rng, xs, nparams, valid=True):
     return None
 
 
+def large_x_data(rng, family, deg, n):
+    grid = {"0..1000": range(0, 1001, 5), "+-5000": range(-5000, 5001, 25), "+-1e5": range(-100000, 100001, 500)}[family]
+    xs = [float(x) for x in rng.sample(list(grid), n)]
+    big = max(abs(x) for x in xs) or 1.0
+    # every term contributes about [big] at the edge of the range
+    truth = [rng.choice([-1, 1]) * (rng.randrange(4, 17) / 8.0) * big / big ** (deg - i) for i in range(deg + 1)]
+    ys = [float(round((peval(truth, x) + rng.uniform(-0.2, 0.2) * big) * 16) / 16) for x in xs]
+    return xs, ys
+
+
 def gen_poly_case(rng, malformed=False):
     model = rng.choice(POLY_MODELS + ("polynomial",))
     deg = {"linear": 1, "quadratic": 2}.get(model) or rng.choice([1, 2, 3, 3, 4, 5])
@@ -328,7 +338,13 @@ def gen_poly_case(rng, malformed=False):
     truth = [dy8(rng, -2, 2) / (1 + i) for i in range(npar)]
     noise = rng.choice([0.5, 1.0, 4.0])
     ys = [float(round((peval(truth, x) + rng.uniform(-noise, noise)) * 16) / 16) for x in xs]
-    case = {"kind": "poly", "model": model, "deg": deg, "designator": rng.choice(["str", "enum"]),
+    large = None
+    if deg >= 3 and model == "polynomial" and rng.random() < 0.3:
+        # LARGE |x| (a wavelength in nm, a time in ms ...): the columns x^d .. x^0 of the design matrix differ by many
+        # orders of magnitude; the reference is exact arithmetic, numpy.polyfit meets 1e-12 sigma on these inputs
+        large = rng.choice(["0..1000", "+-5000"] + (["+-1e5"] if deg == 3 else []))
+        xs, ys = large_x_data(rng, large, deg, n)
+    case = {"kind": "poly", "model": model, "deg": deg, "designator": rng.choice(["str", "enum"]), "large_x": large,
             "degrees_kw": not (model == "polynomial" and deg == 3 and rng.random() < 0.5),
             "xs": xs, "ys": ys, "xerr": None if rng.random() < 0.7 else gen_err_pattern(rng, n),
             "yerr": gen_err_pattern(rng, n), "xrange": None, "mode": rng.choice(MODES)}
@@ -446,6 +462,16 @@ def minimal_family():
                          "family": "minimal"}
                     if well_posed_poly(c):
                         out.append(c)
+    lrng = __import__("random").Random(20260930)
+    for family, deg in (("+-5000", 5), ("+-5000", 4), ("0..1000", 5), ("0..1000", 4), ("+-1e5", 3), ("+-5000", 3)):
+        for weighted in (False, True):
+            n = deg + 4
+            xs, ys = large_x_data(lrng, family, deg, n)
+            c = {"kind": "poly", "model": "polynomial", "deg": deg, "designator": "str", "degrees_kw": True, "xs": xs, "ys": ys,
+                 "xerr": None, "yerr": [abs(y) / 16 + 1 for y in ys] if weighted else None, "xrange": None, "mode": "lists",
+                 "family": "minimal", "large_x": family}
+            if well_posed_poly(c):
+                out.append(c)
     truths = {"userquad": [1.5, -2.0], "exponential": [4.0, 0.5], "gaussian": [6.0, 0.5, 1.25], "u_linear": [1.5, 2.5],
               "u_quadratic": [0.75, -2.0], "u_polynomial": [1.0, -0.5, 0.25], "u_exponential": [0.5, 4.0],
               "u_gaussian": [0.5, 1.25, 6.0], "u_model4": [1.0, 2.0, -0.75, 0.25]}
@@ -781,7 +807,7 @@ def run_call(thunk, case, observe_result=False):
 #         "xs", "ys", "xerr", "yerr": the data the object is created with,
 #         "requests": [ {kind, model, deg, designator, degrees_kw, xrange, xrange_type, guess, ...}, ... ],
 #         "steps": [ ["fit", k] | ["yerr", [..]] | ["xerr", [..]] | ["y", i, v] | ["yerr1", i, e] | ["xerr1", i, e] ]}
-REQ_KEYS = ("malformed", "kind", "model", "deg", "designator", "degrees_kw", "xrange", "xrange_type", "guess", "truth", "noise_free", "as_lambda", "parnames")
+REQ_KEYS = ("malformed", "large_x", "kind", "model", "deg", "designator", "degrees_kw", "xrange", "xrange_type", "guess", "truth", "noise_free", "as_lambda", "parnames")
 
 
 def request_of(case):
@@ -1304,6 +1330,13 @@ def signature(why):
     """what kind of failure a message describes (numbers removed), to report each kind once"""
     import re
     return re.sub(r"[-+]?\d[\d.e+-]*", "#", why or "")[:48]
+
+
+def numerically_lost(case, obs):
+    """a LARGE-|x| polynomial fit whose result object could not be built because the library's first-order propagation of
+    the residuals came out (by rounding: the terms cancel to 1e-16 of their size) negative.  Reported to the maintainers
+    as a robustness observation; not an input on which C06 / C07 can be judged."""
+    return bool(case.get("large_x")) and obs.get("exn_type") == "UndefinedActionError"
 
 
 def strip(obs):
